@@ -72,6 +72,21 @@ pub fn adapter_checks(prev: &blake3::Hasher, succ: &blake3::Hasher, bytes: &[u8]
     None
 }
 
+/// A hasher of `mode` constructed through the traits where a trait constructor exists.
+#[cfg(feature = "traits")]
+pub fn traits_new(mode: &ModeSpec) -> blake3::Hasher {
+    match mode {
+        ModeSpec::Hash => <blake3::Hasher as digest::Digest>::new(),
+        ModeSpec::Keyed(k) => <blake3::Hasher as digest::KeyInit>::new(&(*k).into()),
+        _ => mode.hasher(),
+    }
+}
+
+#[cfg(not(feature = "traits"))]
+pub fn traits_new(mode: &ModeSpec) -> blake3::Hasher {
+    mode.hasher()
+}
+
 #[cfg(feature = "traits")]
 pub fn traits_apply(h: &mut blake3::Hasher, op: Op, data: &[u8], c: usize, rep: &mut Report) -> Result<(), String> {
     rep.inc("trait_transitions");
@@ -211,7 +226,10 @@ fn secret_words(mode: &ModeSpec, h: &blake3::Hasher) -> Vec<u32> {
     if !matches!(mode, ModeSpec::Hash) {
         w.extend_from_slice(&s.key);
     }
-    w.extend_from_slice(&s.chunk_state.cv);
+    // the running chunk CV starts out as the key; in hash mode that is the public IV
+    if !(matches!(mode, ModeSpec::Hash) && s.chunk_state.blocks_compressed == 0) {
+        w.extend_from_slice(&s.chunk_state.cv);
+    }
     for i in 0..s.cv_stack_len {
         for j in 0..8 {
             w.push(u32::from_le_bytes([s.cv_stack[i][4 * j], s.cv_stack[i][4 * j + 1], s.cv_stack[i][4 * j + 2], s.cv_stack[i][4 * j + 3]]));
